@@ -373,6 +373,11 @@ def gen_hist_case(rng, maxlen, unsafe=False):
                 harm = [{"p": p, "a": enc(F(rng.randint(-8, 8), 4)), "t": "f"} for p in ps]
                 for h in harm:
                     h["t"] = B.typ_for(dec(h["a"]), rng)
+                    if h["t"] == "F":
+                        # a Fraction amplitude makes a table of Fractions, on which a later `normalize` divides by a
+                        # Fraction scalar: NotImplementedError - outside the assumption "normalize on int/float tables"
+                        # (the history model does not track item types); amplitudes k/4 are exact floats
+                        h["t"] = "f"
                 a = push({"op": "harmonize", "i": i, "harm": harm})
                 if not bits_ok(sim.lists[-1]):
                     ops.pop()
